@@ -58,7 +58,8 @@ def _ops_for(rng, d, thorough):
         subset = sorted(rng.sample(range(d), size))
         n = rng.choice([1, 2, 8, 50, 50])
         if rng.random() < 0.15:
-            n = 20000 if thorough and rng.random() < 0.3 else 2000
+            n = (20000 if thorough and rng.random() < 0.3 else 2000) \
+                + [0, 1, 337, 999, 500][(d + len(ops) + size) % 5]   # not only round batch sizes
         ops.append({'op': 'sample_cond', 'cols': subset, 'kinds': _rand_values(rng, size),
                     'q': [round(rng.random(), 4) for _ in subset],
                     'container': rng.choice(['dict', 'series', 'series', 'series_int', 'dict_int']),
